@@ -58,3 +58,96 @@ def worker(prop, bdir, variant, lo, hi, profile_kw, oracle_names, salt, plan_fn=
 def run(prop, b, n, profile_kw, oracle_names, salt="h", jobs=None, timeout=3000):
     parts = [(prop, b.dir, b.variant, lo, hi, profile_kw, oracle_names, salt) for lo, hi in core.chunks(n, 64)]
     return core.pmap(worker, parts, jobs=jobs, timeout=timeout)
+
+
+# ---------------------------------------------------------------------------------- sweeps
+def run_one(prop, b, idx, salt, profile_kw, oracle_names, plan=None, res=None):
+    """one history of the seeded stream, optionally under a fault/crash plan; returns (History, res)"""
+    res = res if res is not None else core.Result()
+    ocs = [getattr(oracles, n) for n in oracle_names]
+    rng = core.case_rng(prop, idx, salt)
+    prof = histories.Profile(**profile_kw)
+    label = "%s-%s-%d-%d%s" % (prop, salt, core.seed(), idx, ("-" + plan) if plan else "")
+    h = histories.History(b, rng, res, prof, oracle_classes=ocs, plan=plan, label=label)
+    h.run()
+    return h, res
+
+
+def reference_calls(prop, b, idx, salt, profile_kw):
+    """the gated calls of qmail-send and qmail-clean in the fault-free run of scenario idx"""
+    h, res = run_one(prop, b, idx, salt, profile_kw, [])
+    calls = []
+    for e in h.sim.events:
+        if e["kind"] == "sys" and e.get("ph") == "exit" and e.get("prog") in ("qmail-send", "qmail-clean") and "n2" in e:
+            if e.get("c") == "openr":
+                continue
+            calls.append((e["prog"], e["n2"], e["c"], (e.get("path2") or e.get("path") or "")))
+    return calls, h
+
+
+def sweep_worker(prop, bdir, variant, idx, salt, profile_kw, oracle_names, plans):
+    res = core.Result()
+    b = build.Build(variant, bdir)
+    for plan, site in plans:
+        fired = False
+        for attempt in (0, 1):
+            try:
+                h, _ = run_one(prop, b, idx, salt, profile_kw, oracle_names, plan=plan, res=res)
+                for e in h.sim.events:
+                    if e["kind"] == "sys" and (e.get("ph") == "killed" or e.get("inj") in ("fail", "short")):
+                        fired = True
+                res.counters.inc("crashes", h.crashes)
+                res.counters.inc("gated_steps", h.sim.steps)
+                res.counters.inc("quiescent_points", h.sim.quiescent_points)
+                break
+            except qsim.SimTimeout as e:
+                if attempt == 1:
+                    res.inconclusive.append("sweep %s %s: %s" % (idx, plan, str(e)[:200]))
+            except core.Inconclusive as e:
+                res.inconclusive.append("sweep %s %s: %s" % (idx, plan, str(e)[:200]))
+                break
+            except Exception:
+                res.inconclusive.append("sweep %s %s: exception %s" % (idx, plan, traceback.format_exc()[-600:]))
+                break
+        res.evaluations += 1
+        if fired:
+            d = res.counters.setdefault("injections_fired_by_site", {})
+            d[site] = d.get(site, 0) + 1
+            res.nontrivial("sweep", idx, plan, profile_kw.get("variant"))
+        else:
+            res.counters.inc("injections_not_reached")
+    return res
+
+
+def site_of(prog, call, path):
+    parts = path.replace(" (deleted)", "").split("/")
+    d = parts[1] if len(parts) >= 2 and parts[0] == "queue" else (parts[0] if parts else "")
+    return "%s:%s:%s" % (prog.replace("qmail-", ""), call, d)
+
+
+def crash_plans(calls, every=1):
+    out = []
+    for i, (prog, n2, call, path) in enumerate(calls):
+        if i % every == 0:
+            out.append(("%s:%d:kill" % (prog, n2), "kill@" + site_of(prog, call, path)))
+    return out
+
+
+FAULTS = {"open": ["fail=EIO", "fail=EMFILE"], "write": ["fail=ENOSPC", "short=1"], "fsync": ["fail=EIO"],
+          "unlink": ["fail=EIO"], "link": ["fail=EIO"], "utime": ["fail=EIO"], "close": ["fail=EIO"]}
+
+
+def fault_plans(calls, every=1):
+    out = []
+    for i, (prog, n2, call, path) in enumerate(calls):
+        if i % every:
+            continue
+        for a in FAULTS.get(call, []):
+            out.append(("%s:%d:%s" % (prog, n2, a), "%s@%s" % (a, site_of(prog, call, path))))
+    return out
+
+
+def run_sweep(prop, b, idx, salt, profile_kw, oracle_names, plans, jobs=None):
+    k = max(1, min(48, len(plans) // 4 or 1))
+    parts = [(prop, b.dir, b.variant, idx, salt, profile_kw, oracle_names, plans[lo:hi]) for lo, hi in core.chunks(len(plans), k)]
+    return core.pmap(sweep_worker, parts, jobs=jobs, timeout=3000)
